@@ -110,7 +110,7 @@ def peq(a, b, subst=None):
 class PathView:
     def __init__(self, eng, root, exit_):
         self.eng = eng; self.root = root; self.e = exit_; self.kind = exit_['kind']
-        self._facts = None; self._eff = None; self._msgs = None; self._attrs = None; self._fi = None
+        self._facts = None; self._eff = None; self._msgs = None; self._attrs = None; self._fi = None; self._si = None
         self.variant = None
         for f, _, _ in exit_['facts']:
             if f[0] == 'is' and f[1] == ('sym', 'msg'): self.variant = f[2]; break
@@ -137,8 +137,29 @@ class PathView:
         return self._fi
 
     def pos(self, fact):
-        """index of a (normalised) fact on this path or None"""
-        return self.fact_index.get(fact)
+        """index of a (normalised) fact on this path or None. ('pos', X) / ('zero', X) are pseudo-facts satisfied by any
+        spelling of X > 0 / X == 0 (see sign_of_fact); comparisons against 0 / 1 are looked up through them as well"""
+        if fact[0] in ('pos', 'zero'):
+            return self.sign_index.get((fact[1], fact[0]))
+        r = self.fact_index.get(fact)
+        if r is None:
+            sf = sign_of_fact(fact)
+            if sf is not None: return self.sign_index.get(sf)
+        return r
+
+    @property
+    def sign_index(self):
+        if self._si is None:
+            d = {}
+            for i, (f, _, _) in enumerate(self.facts):
+                sf = sign_of_fact(f)
+                if sf is not None: d.setdefault(sf, i)
+            self._si = d
+        return self._si
+
+    def signs(self):
+        """[(X, 'pos'|'zero')] for all sign facts of the path"""
+        return list(self.sign_index.keys())
 
     def holds(self, pred, value=True):
         if pred[0] == 'bool': return 0 if pred[1] == value else None
@@ -231,6 +252,24 @@ def _split_erf(pol):
     rest = Poly({m2: v for m2, v in pol.m.items() if m2 != (hit,)})
     return {'rest': rest, 'N': dv[0][2][0], 'Q': dv[0][2][1], 'F': other[0]}
 
+def sign_of_fact(f):
+    """(X, 'pos'|'zero') when the fact establishes X > 0 or X == 0 for an unsigned amount X, in any of the equivalent
+    spellings  0 < X,  X < 1,  X == 0,  X != 0,  is_zero(X),  match X { 0 => .. }  -- else None"""
+    if f[0] == 'val' and isinstance(f[2], bool):
+        pr = f[1]
+        if pr[0] == 'lt' and pr[1] == ('int', 0): return (pr[2], 'pos' if f[2] else 'zero')
+        if pr[0] == 'lt' and pr[2] == ('int', 1): return (pr[1], 'zero' if f[2] else 'pos')
+        if pr[0] == 'eq' and ('int', 0) in pr[1:]:
+            other = pr[2] if pr[1] == ('int', 0) else pr[1]
+            return (other, 'zero' if f[2] else 'pos')
+    if f[0] == 'val' and f[2] == 0 and not isinstance(f[2], bool) and isinstance(f[1], tuple): return (f[1], 'zero')
+    if f[0] == 'nval' and 0 in f[2]: return (f[1], 'pos')
+    return None
+
+def is_sign(f, x, sign):
+    sf = sign_of_fact(f) if f is not None else None
+    return sf is not None and sf == (x, sign)
+
 def const_truth(pred):
     """truth value of an eq/lt predicate when the polynomial difference of its sides is a constant, else None"""
     if pred[0] == 'eq':
@@ -262,14 +301,13 @@ def infeasible_reason(p):
                 return 'fold: checked_sub(%s) cannot fail' % P(f[1][2][0])[:60]
     # L-mono: x -> R - round0(F * x / Q) is non-increasing in x; so with N1 > N2 (or equal):  R - ERF(N1) > 0  implies  R - ERF(N2) > 0
     pro = []
-    for f, site, _ in facts:
-        if f[0] == 'val' and isinstance(f[2], bool) and f[1][0] == 'lt' and f[1][1] == ('int', 0):
-            d = _split_erf(poly(f[1][2]))
-            if d is not None: pro.append((d, f[2]))
+    signs = [sf for sf in (sign_of_fact(f) for f, _, _ in facts) if sf is not None and isinstance(sf[0], tuple)]
+    for x, sg in signs:
+        if looks_numeric(x):
+            d = _split_erf(poly(x))
+            if d is not None: pro.append((d, sg == 'pos'))
     if len(pro) >= 2:
-        positives = []
-        for f, site, _ in facts:
-            if f[0] == 'val' and f[2] is True and f[1][0] == 'lt' and f[1][1] == ('int', 0): positives.append(poly(f[1][2]))
+        positives = [poly(x) for x, sg in signs if sg == 'pos' and looks_numeric(x)]
         for (d1, v1) in pro:
             for (d2, v2) in pro:
                 if v1 is True and v2 is False and d1['rest'] == d2['rest'] and d1['Q'] == d2['Q'] and d1['F'] == d2['F']:
@@ -277,12 +315,11 @@ def infeasible_reason(p):
                     if diff.is_zero() or any(diff == pp for pp in positives):
                         return 'L-mono: the pro-rata fee due grows with the quote consumed, so fee(g1) > 0 and fee(g2) = 0 with g2 >= g1 is impossible'
     # L-pos: exec < bid, size >= 1, both products integral  =>  bid*size - exec*size >= 1
-    for f, site, _ in facts:
-        if f[0] == 'val' and f[2] is False and f[1][0] == 'lt' and f[1][1] == ('int', 0):
-            x = f[1][2]
+    for x, sg in signs:
+        if sg == 'zero':
             if x[0] == 'sub' and x[1][0] == 'mul' and x[2][0] == 'mul' and x[1][2] == x[2][2]:
                 hi, lo, sz = x[1][1], x[2][1], x[1][2]
-                need = [('val', ('lt', lo, hi), True), ('val', ('lt', sz, ('int', 1)), False),
+                need = [('val', ('lt', lo, hi), True), ('pos', sz),
                         ('val', EQ(('fract', ('mul', hi, sz)), ('int', 0)), True), ('val', EQ(('fract', ('mul', lo, sz)), ('int', 0)), True)]
                 if all(p.pos(n) is not None for n in need):
                     return 'L-pos: (hi-lo)*size >= 1 when lo < hi, size >= 1 and both products are integral'
